@@ -4,6 +4,7 @@ import (
 	"fmt"
 	"testing"
 
+	"github.com/openziti/storage/boltz"
 	"pgregory.net/rapid"
 
 	"verif/kit"
@@ -87,6 +88,44 @@ func runC03(h kit.History) kit.Result {
 		everHeld[val][id] = true
 	}
 	st, err := kit.RunHistory(h, func(w *kit.World, m *kit.Model, i int, tx kit.TxSpec, out kit.TxOutcome) error {
+		if i%3 == 2 {
+			// index look-ups made inside a writing transaction (values held and values nobody holds) find what the
+			// model says and leave the indexes as they are
+			var lookupErr error
+			if err := w.Z.Db.Update(nil, func(ctx boltz.MutateContext) error {
+				for _, v := range []string{"r1", "r2", "r-nobody", "zz-nobody", "a"} {
+					holders := map[string]bool{}
+					for id, e := range m.Ents["things"] {
+						for _, r := range e.Roles {
+							if r == v {
+								holders[id] = true
+							}
+						}
+					}
+					var got []string
+					w.SetIdx["things."+kit.FRoles].Read(ctx.Tx(), []byte(v), func(val []byte) { got = append(got, string(val)) })
+					n := 0
+					for cur := w.SetIdx["things."+kit.FRoles].OpenValueCursor(ctx.Tx(), []byte(v), true); cur.IsValid(); cur.Next() {
+						n++
+					}
+					if len(got) != len(holders) || n != len(holders) {
+						lookupErr = fmt.Errorf("inside a writing transaction the set index lists %q (cursor: %d elements) for role %q, the model has %d holders", got, n, v, len(holders))
+					}
+				}
+				if id := w.Unique["things."+kit.FName].Read(ctx.Tx(), []byte("name-nobody-has")); id != nil {
+					lookupErr = fmt.Errorf("inside a writing transaction the unique index maps a name nobody has to %q", id)
+				}
+				return nil
+			}); err != nil {
+				return fmt.Errorf("a writing transaction that only reads the indexes failed: %v", err)
+			}
+			if lookupErr != nil {
+				return lookupErr
+			}
+			if err := w.CheckAll(m); err != nil {
+				return fmt.Errorf("after index look-ups inside a writing transaction: %v", err)
+			}
+		}
 		if out.Committed {
 			for id, e := range m.Ents["things"] {
 				note("name:"+e.Name, id)
